@@ -432,7 +432,7 @@ func (g *gen) fillStruct(ss *structSchema, v reflect.Value, depth int) {
 		v.Field(l.idx).SetString(g.label())
 	}
 	for _, a := range ss.attrs {
-		if a.optional && g.rng.Float64() >= g.pOpt {
+		if !a.required() && g.rng.Float64() >= g.pOpt {
 			continue // stays the zero value = absent
 		}
 		g.fillAttr(a, v.Field(a.idx))
